@@ -58,6 +58,55 @@ Proof.
 Qed.
 Print Assumptions C01_roundtrip_total.
 
+(* 1b. ... and for data unstructured by BaseConverter (collections by the RUNTIME class of their elements, keeping their
+      container class; classes attribute by attribute by declared type): for every environment whose attribute types BaseConverter
+      has hooks for at every depth ([base_deep]: no heterogeneous tuples, NewType, Annotated -- the documented limits), every such
+      type and every value of it, EITHER converter class in EITHER validation mode structures what BaseConverter returned back to
+      the value itself, with any amount of fuel above an explicit bound linear in the size of the value ([M] bounds the Optional
+      nesting of the declared types).  Not same-fuel: BaseConverter spends nothing on None and on Optional, structuring does. *)
+From V.Proofs Require Import ConvUnAgree BaseRoundtrip.
+Theorem C01_roundtrip_from_baseconverter :
+  forall (E : env) (dvB genS dvS tup : bool) (M : nat),
+    (forall p e, e_coerce E p (VAtom p e) = Ok (VAtom p e)) ->
+    (forall c cd, e_class E c = Some cd ->
+       rt_class_ok (mk_cfg genS dvS tup false) c cd /\ (forall nm ft, assoc (cd_types cd) nm = Some ft -> base_deep ft = true)) ->
+    (forall c cd nm ft, e_class E c = Some cd -> assoc (cd_types cd) nm = Some ft -> maxw ft <= M) -> 2 <= M ->
+    forall (n : nat) (t : ty) (x u : val) (m : nat),
+      rt_value E false x t -> base_deep t = true -> maxw t <= M ->
+      unstructure E (mk_cfg false dvB tup false) n t x = Ok u ->
+      vsize x * S M + tw t <= m ->
+      structure E (mk_cfg genS dvS tup false) m t u = Ok x.
+Proof.
+  intros E dvB genS dvS tup M Hco Henv HM HM2 n t x u m Hrt Hb Hm Hu Hn.
+  eapply (base_roundtrip E (mk_cfg false dvB tup false) (mk_cfg genS dvS tup false)); try eassumption;
+    [reflexivity | reflexivity | intros _; exact src_tuple_passes_kw_only_by_keyword | reflexivity | apply mk_cfg_recheck | apply mk_cfg_kw_last].
+Qed.
+Print Assumptions C01_roundtrip_from_baseconverter.
+
+(* never vacuous: BaseConverter does return something for every value of such a type *)
+Theorem C01_roundtrip_from_baseconverter_total :
+  forall (E : env) (dvB genS dvS tup : bool) (M : nat),
+    (forall p e, e_coerce E p (VAtom p e) = Ok (VAtom p e)) ->
+    (forall c cd, e_class E c = Some cd ->
+       rt_class_ok (mk_cfg genS dvS tup false) c cd /\ (forall nm ft, assoc (cd_types cd) nm = Some ft -> base_deep ft = true)) ->
+    (forall c cd nm ft, e_class E c = Some cd -> assoc (cd_types cd) nm = Some ft -> maxw ft <= M) -> 2 <= M ->
+    forall (t : ty) (x : val),
+      rt_value E false x t -> base_deep t = true -> maxw t <= M ->
+      exists n u, unstructure E (mk_cfg false dvB tup false) n t x = Ok u /\
+                  forall m, vsize x * S M + tw t <= m -> structure E (mk_cfg genS dvS tup false) m t u = Ok x.
+Proof.
+  intros E dvB genS dvS tup M Hco Henv HM HM2 t x Hrt Hb Hm.
+  assert (Hann : false = true -> c_gen (mk_cfg genS dvS tup false) = true) by (intros X; discriminate X).
+  destruct (un_total E (mk_cfg true dvB tup false) (mk_cfg genS dvS tup false) false eq_refl eq_refl eq_refl eq_refl Hann
+              (fun c cd Hc => proj1 (Henv c cd Hc)) M HM HM2 (vsize x * S M + tw t) t x Hrt Hm (le_n _)) as (ug & Hug).
+  destruct (unstructure_agree E (mk_cfg true dvB tup false) (mk_cfg false dvB tup false) eq_refl eq_refl eq_refl) with (n := vsize x * S M + tw t) (t := t) (x := x) (u := ug)
+    as (u & Hu & _); [|exact Hrt | exact Hb | exact Hug|].
+  { intros c cd Hc. destruct (Henv c cd Hc) as ((W & HA) & Hbd). split; [exact W|]. split; [intros f Hf; now destruct (HA f Hf) | exact Hbd]. }
+  exists (vsize x * S M + tw t), u. split; [exact Hu|]. intros m Hn.
+  eapply C01_roundtrip_from_baseconverter; eassumption.
+Qed.
+Print Assumptions C01_roundtrip_from_baseconverter_total.
+
 (* 2. Class level, any payload value type: both unstructure templates emit every attribute, in order,
       under its name; structuring that dict with handlers that undo the unstructure handlers ON THE
       INSTANCE'S VALUES gives back the same instance, through the detailed, the fast and (via item 3 of
@@ -264,3 +313,22 @@ Example C01_class_union_nonvacuous :
   union_structure N N true true (dis_keys [(10, 1); (20, 2)]%N (Some 3%N)) (fun c _ => Ok c) (Some []) = Ok (Some 3%N).
 Proof. vm_compute. repeat split. Qed.
 
+
+(* non-vacuity of 1b: a recursive class with a list of optional references to itself, a mapping of sets and an untyped
+   attribute; BaseConverter keeps the set a set and the tuple a tuple, and all four structuring configurations give the value back *)
+Definition b1_cd : cdef :=
+  {| cd_fields := e1_fields;
+     cd_types := [(1, TList (TOpt (TClass 1))); (2, TDict (TPrim PStr) (TSet (TPrim PInt)))] |}.
+Definition b1_env : env :=
+  {| e_class := fun c => if N.eqb c 1 then Some b1_cd else None; e_enum := fun _ => [];
+     e_coerce := e1_coerce; e_in := fun _ _ => Err EType; e_iter := fun _ => Err EType; e_len := fun _ => Err EType |}.
+Definition b1_x : val :=
+  VInst 1 [(1, VList [VNone; VInst 1 [(1, VList []); (2, VDict []); (3, VAtom PStr 7)]]); (2, VDict [(VAtom PStr 5, VSet [VAtom PInt 1; VAtom PInt 2])]); (3, VNone)].
+Example C01_base_nonvacuous_runs :
+  unstructure b1_env (mk_cfg false true false false) 6 (TClass 1) b1_x
+    = Ok (VDict [(VAtom PStr 1, VList [VNone; VDict [(VAtom PStr 1, VList []); (VAtom PStr 2, VDict []); (VAtom PStr 3, VAtom PStr 7)]]);
+                 (VAtom PStr 2, VDict [(VAtom PStr 5, VSet [VAtom PInt 1; VAtom PInt 2])]); (VAtom PStr 3, VNone)])
+  /\ forall genS dvS, match unstructure b1_env (mk_cfg false true false false) 6 (TClass 1) b1_x with
+                      | Ok u => structure b1_env (mk_cfg genS dvS false false) (vsize b1_x * 3 + 1) (TClass 1) u = Ok b1_x
+                      | _ => False end.
+Proof. split; [vm_compute; reflexivity|]. intros [|] [|]; vm_compute; reflexivity. Qed.
